@@ -170,6 +170,16 @@ func genValue(t *rapid.T, label string) string {
 		rs[i] = alpha[rapid.IntRange(0, len(alpha)-1).Draw(t, label+"-ch")]
 	}
 	s := strings.TrimSpace(string(rs))
+	if rapid.IntRange(0, 9).Draw(t, label+"-hashsign") == 0 {
+		// ordinary text with a number sign in it ("Suite #42"): only a value that is nothing but '#' and hex digits is special
+		tail := rapid.SampledFrom([]string{"#42", "#1", "#cafe", "#", "#0c0141", " #12 b", "#dead beef", "##"}).Draw(t, label+"-hashtail")
+		if n <= 24 && rapid.Bool().Draw(t, label+"-hashonly") {
+			s = "x" + tail
+		} else {
+			s = s + " " + tail
+		}
+		s = strings.TrimSpace(s)
+	}
 	s = strings.TrimLeft(s, "#")
 	s = strings.TrimSpace(s)
 	if s == "" {
@@ -283,7 +293,11 @@ func genRaw(t *rapid.T, label string, maxLen int) *core.Raw {
 	case 1:
 		return &core.Raw{Kind: "empty"}
 	}
-	return core.Bin(genRawBytes(t, label, maxLen))
+	r := core.Bin(genRawBytes(t, label, maxLen))
+	if len(r.Bytes) > 48 && rapid.IntRange(0, 2).Draw(t, label+"-wrapped") == 0 {
+		r.Wrap = rapid.SampledFrom([]int{76, 64, 60}).Draw(t, label+"-wrapcol")
+	}
+	return r
 }
 
 func genFileName(t *rapid.T, label string) string {
